@@ -247,7 +247,9 @@ func numberOfBloomFilterBits(n uint, r float64) uint {
 }
 
 func numberOfBloomFilterHashFunctions(s uint, n uint) uint {
-	return uint(math.Round(float64(s) / float64(n) * math.Log(2)))
+	// A filter needs at least one hash function: with zero, nothing is ever
+	// written or read and every added item is reported as absent.
+	return max(uint(math.Round(float64(s)/float64(n)*math.Log(2))), 1)
 }
 
 func (c *bloomFilter) Add(ctx context.Context, key string) error {
